@@ -26,6 +26,11 @@ Theorem C14_explicit_settings_applied_exactly : forall auto inseq before,
 Proof. exact explicit_settings. Qed.
 Print Assumptions C14_explicit_settings_applied_exactly.
 
+(* the stated angle of an explicit rotator does not enter the decision: a rotator stated as 0 (or 180, -90, 360) is a rotator *)
+Theorem C14_rotator_angle_irrelevant : forall auto l l', same_shape l l' = true -> rotations auto l = rotations auto l'.
+Proof. exact rotator_angle_irrelevant. Qed.
+Print Assumptions C14_rotator_angle_irrelevant.
+
 Theorem C14_global_switch_off : forall inseq before, entry_rotator (rotation false inseq before SUnset) = None.
 Proof. exact global_off. Qed.
 Print Assumptions C14_global_switch_off.
